@@ -266,7 +266,11 @@ Definition lineage_eqb (l1 l2 : lineage) : bool :=
 (* StorageFrontend._matches *)
 Definition matches (stored desired : lineage) (ff fo : list Z) : bool :=
   match ff, fo with
-  | [], [] => lineage_eqb stored desired
+  | [], [] =>
+      (* `lineage == desired_lineage`: the entries of a lineage read back from metadata.json are
+         lists, those of the requested lineage are tuples, so only two empty lineages are equal.
+         (DataDirectory never gets here: without fuzzy options it compares directory names.) *)
+      match stored, desired with [], [] => true | _, _ => false end
   | _, _ => lineage_eqb (filter_lineage stored ff fo) (filter_lineage desired ff fo)
   end.
 
